@@ -519,6 +519,166 @@ theorem string_read_total (e : Endian) (bs : List UInt8) (h : 4 ≤ bs.length) :
     · exact List.take_append_drop _ _
     · intro h'; exact absurd h' hn
 
+/-! ## the argument of a write is left unchanged -/
+
+/-- G obligation: in all three classes the generic `operator<<(const T& x)` copies `x` into a temporary, swaps the
+    temporary and writes the temporary — `swapBytes` never touches the caller's object -/
+theorem gen_writer_paths (k : Kind) : scalarPath k = [.copyTmp, .swapTmp, .writeTmp] := by
+  cases k <;> rfl
+
+/-- the temporary-copy path: the bytes of `putGeneric`, the argument as it was -/
+theorem runW_copy_path (swap : Bool) (x : List UInt8) :
+    runW swap [.copyTmp, .swapTmp, .writeTmp] x = ((if swap then swapBytes x else x), x) := by
+  simp [runW, execW]
+
+/-- an in-place swap that is swapped back after the write is as good as the temporary copy (same bytes, argument
+    restored) — `swapBytes` is an involution -/
+theorem runW_swap_back (swap : Bool) (x : List UInt8) :
+    runW swap [.swapArg, .writeArg, .swapArg] x = runW swap [.copyTmp, .swapTmp, .writeTmp] x := by
+  cases swap <;> simp [runW, execW, swapBytes_eq_reverse]
+
+/-- … whereas an in-place swap that is *not* swapped back leaves the caller's object byte-reversed whenever the order
+    is not the host's: the model can tell the difference -/
+theorem runW_in_place_alters (x : List UInt8) (h : x.reverse ≠ x) :
+    (runW true [.swapArg, .writeArg] x).2 ≠ x := by
+  simpa [runW, execW, swapBytes_eq_reverse] using h
+
+/-- **`stream << x` leaves `x` unchanged** and hands `write` exactly the bytes of the value-level model — every class,
+    type, order and bit pattern -/
+theorem scalar_write_mem (k : Kind) (e : Endian) (t : Ty) (v : Nat) :
+    putScalarMem k e t v = (putScalar k e t v, objRep (sizeofT t) v) := by
+  cases k <;> cases t <;>
+    first
+    | rfl
+    | (simp only [putScalarMem, gen_writer_paths, runW_copy_path, putScalar, putGeneric])
+
+/-- **`stream << array` leaves the array unchanged**: for every class, order (so both the item-by-item and the block
+    branch), element type, length and content, the bytes written are those of `putArray` (canonical by
+    `array_canonical`) and the array's storage afterwards is the storage before -/
+theorem array_write_mem (k : Kind) (e : Endian) (t : Ty) (vs : List Nat) :
+    putArrayMem k e t vs = (putArray k e t vs, arrayMem t vs) := by
+  have hmap : vs.map (putScalarMem k e t) = vs.map fun v => (putScalar k e t v, objRep (sizeofT t) v) :=
+    List.map_congr_left (fun v _ => scalar_write_mem k e t v)
+  cases t <;> simp only [putArrayMem, putArray, hmap] <;>
+    (split <;> simp [arrayMem, List.flatMap_map] )
+
+
+/-- **the caller still holds the values it passed**: decoding the array's storage after the write gives the elements
+    back (this is what the driver's `wv` prints and the harness reads from the real `Array<T>` after `stream << a`) -/
+theorem array_argument_unchanged (k : Kind) (e : Endian) (t : Ty) (vs : List Nat) (hv : ∀ v ∈ vs, ValidBits t v) :
+    memVals (sizeofT t) vs.length (putArrayMem k e t vs).2 = vs := by
+  rw [array_write_mem]; exact memVals_arrayMem t vs hv
+
+/-! ## raw bytes, strings and `skip` -/
+
+/-- **raw-byte / String / ByteArray writes** (`write(p, n)`, `<< String`, `<< ByteArray`) anywhere in a history: exactly
+    the argument's bytes are appended between what the earlier and the later operations write, the byte order in force
+    is not changed and the later operations are encoded as if the raw write were not there -/
+theorem raw_write_spec (k : Kind) (e : Endian) (before after : List WOp) (bs : List UInt8) :
+    writeAll k e (before ++ .bytes bs :: after) =
+      ((writeAll k (writeAll k e before).1 after).1,
+       (writeAll k e before).2 ++ (bs ++ (writeAll k (writeAll k e before).1 after).2)) := by
+  rw [writeAll_append]
+  simp [writeAll, writeOp]
+
+/-- **`read(p, n)` / `read(n)` on arbitrary data**: returns exactly the next `n` bytes (those that are there), the reads
+    after it see exactly the bytes after them, under the same byte order -/
+theorem raw_read_spec (k : Kind) (e : Endian) (bs : List UInt8) (n : Nat) (ops : List ROp) :
+    readAll k e bs (.bytes n :: ops) =
+      ((readAll k e (bs.drop n) ops).1, .bytes (bs.take n) :: (readAll k e (bs.drop n) ops).2.1, (readAll k e (bs.drop n) ops).2.2) := by
+  simp [readAll, readOp]
+
+/-- **`skip(n)` advances by exactly `n`** on arbitrary data: the later reads return what they return on the data without
+    its first `n` bytes, the byte order is untouched, nothing is returned for the skip itself -/
+theorem skip_spec (k : Kind) (e : Endian) (bs : List UInt8) (n : Nat) (ops : List ROp) :
+    readAll k e bs (.skip n :: ops) =
+      ((readAll k e (bs.drop n) ops).1, .none :: (readAll k e (bs.drop n) ops).2.1, (readAll k e (bs.drop n) ops).2.2) := by
+  simp [readAll, readOp]
+
+/-- skipping `n` bytes leaves the reader where reading `n` raw bytes (and dropping them) leaves it; two skips add up;
+    two raw reads return the two parts of one read of the sum -/
+theorem skip_compose (k : Kind) (e : Endian) (bs : List UInt8) (n m : Nat) (ops : List ROp) :
+    (readAll k e bs (.skip n :: ops)).2.2 = (readAll k e bs (.bytes n :: ops)).2.2 ∧
+    (readAll k e bs (.skip n :: ops)).2.1.tail = (readAll k e bs (.bytes n :: ops)).2.1.tail ∧
+    (readAll k e bs (.skip n :: .skip m :: ops)).2.2 = (readAll k e bs (.skip (n + m) :: ops)).2.2 ∧
+    (bs.take n ++ (bs.drop n).take m = bs.take (n + m)) := by
+  refine ⟨by simp [readAll, readOp], by simp [readAll, readOp], by simp [readAll, readOp], ?_⟩
+  rw [List.take_add]
+
+theorem write_size (k : Kind) (e : Endian) (op : WOp) : (writeOp k e op).2.length = itemSize op := by
+  cases op with
+  | setEndian e' => rfl
+  | scalar t v => exact scalar_length k e t _
+  | array t vs => simp [writeOp, itemSize, array_length]
+  | bytes bs => rfl
+  | cstr bs => rfl
+  | carray t vs =>
+    simp only [writeOp, itemSize, putCArray]
+    rw [flatMap_length_const _ (sizeofT t) _ (fun a => scalar_length k e t a), List.length_map]
+  | strArray ss => simp [writeOp, itemSize, string_array_canonical]
+
+/-- reading one item back (a `read_back` of a one-item history), whatever follows -/
+theorem read_one (k : Kind) (e : Endian) (op : WOp) (tail : List UInt8) (hwf : WF k op) :
+    readAll k e ((writeOp k e op).2 ++ tail) (mirror op) = ((writeOp k e op).1, expected op, tail) := by
+  have h := read_back k e [op] tail (by intro o ho; simp at ho; subst ho; exact hwf)
+  simpa [writeAll] using h
+
+/-- **`skip` composes with typed reads in any order, with order switches in mid-stream**: for every class, start
+    order, write history (scalars, arrays, strings/raw bytes, switches anywhere) and every choice of the items to skip,
+    skipping exactly the sizes of the chosen items and reading the others with their types returns the original values
+    of all the others, ends in the writer's byte order and leaves exactly what followed — a skip moves the reader by
+    exactly its argument and disturbs nothing read later -/
+theorem read_back_with_skips (k : Kind) (e : Endian) (ops : List WOp) (sk : List Bool) (rest : List UInt8)
+    (hlen : sk.length = ops.length) (hwf : ∀ op ∈ ops, WF k op) :
+    readAll k e ((writeAll k e ops).2 ++ rest) ((ops.zip sk).flatMap mirrorS) =
+      ((writeAll k e ops).1, (ops.zip sk).flatMap expectedS, rest) := by
+  induction ops generalizing e sk with
+  | nil => simp [readAll, writeAll]
+  | cons op r ih' =>
+    match sk, hlen with
+    | b :: sk', hlen =>
+      have ih := fun e => ih' e sk' (by simpa using hlen) (fun o h => hwf o (List.mem_cons_of_mem _ h))
+      have hop := hwf op List.mem_cons_self
+      simp only [List.zip_cons_cons, List.flatMap_cons]
+      rw [readAll_append]
+      simp only [writeAll, List.append_assoc]
+      have hskip : ∀ n, n = (writeOp k e op).2.length → (writeOp k e op).1 = e →
+          readAll k e ((writeOp k e op).2 ++ ((writeAll k (writeOp k e op).1 r).2 ++ rest)) [.skip n] =
+            ((writeOp k e op).1, [.none], (writeAll k (writeOp k e op).1 r).2 ++ rest) := by
+        intro n hn he
+        subst hn
+        simp [readAll, readOp, he]
+      have hone := read_one k e op ((writeAll k (writeOp k e op).1 r).2 ++ rest) hop
+      cases b
+      · -- read with its own type
+        have hm : mirrorS (op, false) = mirror op ∧ expectedS (op, false) = expected op := by
+          cases op <;> exact ⟨rfl, rfl⟩
+        rw [hm.1, hm.2, hone]
+        simp only []
+        rw [ih]
+      · cases op with
+        | setEndian e' =>
+          simp only [mirrorS, expectedS, writeOp, readAll, readOp, List.nil_append]
+          rw [ih e']
+        | scalar t v =>
+          simp only [mirrorS, expectedS]
+          rw [hskip _ (write_size k e _).symm rfl]; simp only []; rw [ih]
+        | array t vs =>
+          simp only [mirrorS, expectedS]
+          rw [hskip _ (write_size k e _).symm rfl]; simp only []; rw [ih]
+        | bytes bs =>
+          simp only [mirrorS, expectedS]
+          rw [hskip _ (write_size k e _).symm rfl]; simp only []; rw [ih]
+        | cstr bs =>
+          simp only [mirrorS, expectedS]
+          rw [hskip _ (write_size k e _).symm rfl]; simp only []; rw [ih]
+        | carray t vs =>
+          simp only [mirrorS, expectedS]
+          rw [hskip _ (write_size k e _).symm rfl]; simp only []; rw [ih]
+        | strArray ss =>
+          simp only [mirrorS, expectedS]
+          rw [hskip _ (write_size k e _).symm rfl]; simp only []; rw [ih]
+
 /-! ## the hypotheses are satisfiable, the statements are not vacuous -/
 
 example : bytes .big 4 0x01020304 = [1, 2, 3, 4] ∧ bytes .little 4 0x01020304 = [4, 3, 2, 1] := by decide
@@ -536,5 +696,17 @@ example : (readAll .file .big [1, 2, 3, 4, 9] [.scalar .u16, .setEndian .little,
     (.little, [.val .u16 0x0102, .none, .val .u16 0x0403], [9]) := by decide
 /-- the array overload before commit 264bf86 passed `x.length()` to `write`: three bytes for three ints -/
 example : ((arrayMem .i32 [1, 2, 3]).take 3).length = 3 ∧ (putArray .file .native .i32 [1, 2, 3]).length = 12 := by decide
+
+/-- the memory path of today's source, and what an in-place variant would do to the caller's `short` -/
+example : runW true (scalarPath .file) [1, 2] = ([2, 1], [1, 2]) ∧ runW true [.swapArg, .writeArg] [1, 2] = ([2, 1], [2, 1]) ∧
+    runW true [.swapArg, .writeArg, .swapArg] [1, 2] = ([2, 1], [1, 2]) := by decide
+example : ([1, 2] : List UInt8).reverse ≠ [1, 2] := by decide
+/-- an `Array<short>{0x0102, 0x8000}` written in the non-native order: swapped bytes out, storage as before -/
+example : putArrayMem .sock .big .i16 [0x0102, 0x8000] = ([1, 2, 0x80, 0], [2, 1, 0, 0x80]) ∧
+    (∀ v ∈ [0x0102, 0x8000], ValidBits .i16 v) := by decide
+/-- a history read back with the array and the string skipped, a switch in between -/
+example : readAll .sb .little (writeAll .sb .little [.scalar .i16 0x0102, .array .i16 [3, 4], .setEndian .big, .bytes [9, 9, 9], .scalar .u16 0x0506]).2
+      (([WOp.scalar .i16 0x0102, .array .i16 [3, 4], .setEndian .big, .bytes [9, 9, 9], .scalar .u16 0x0506].zip [false, true, false, true, false]).flatMap mirrorS) =
+    (.big, [.val .i16 0x0102, .none, .none, .none, .val .u16 0x0506], []) := by decide
 
 end C16
